@@ -8,5 +8,6 @@ func Catalogue() []Entry {
 	es = append(es, ConstEntries()...)
 	es = append(es, ModuleEntries()...)
 	es = append(es, MDEntries()...)
+	es = append(es, RefEntries()...)
 	return es
 }
